@@ -151,15 +151,19 @@ def gen_evq(rng, aid, spec):
     return {"a": aid, "op": "evq", "q": rng.choice(["inverse", "preimages"]), "y": y, "as": how}
 
 
-def sprinkle_evq(rng, ops, aid, spec, prob=0.15, each=0.25):
-    """With probability `prob` the driver of `aid` also queries the solver's evolvent now and then."""
+def sprinkle_evq(rng, ops, aid, spec, prob=0.15, each=0.25, refill=False):
+    """With probability `prob` the driver of `aid` also queries the solver's evolvent now and then.  refill=True (only for
+    oracles that do not depend on the order of ties): the driver also calls searchData.RefillQueue() between iterations."""
     if rng.random() >= prob:
         return ops
     out = []
     for o in ops:
         out.append(o)
         if o.get("a") == aid and o["op"] in ("create", "iterate", "solve") and rng.random() < each:
-            out.append(gen_evq(rng, aid, spec))
+            if refill and o["op"] == "iterate" and rng.random() < 0.3:
+                out.append({"a": aid, "op": "sdq", "q": "refill"})
+            else:
+                out.append(gen_evq(rng, aid, spec))
     return out
 
 
